@@ -38,7 +38,7 @@ def sh(cmd, timeout):
     t0 = time.time()
     try:
         r = subprocess.run(cmd, shell=True, cwd=WT, env=env, capture_output=True, text=True, timeout=timeout)
-        return r.returncode, (r.stdout + r.stderr)[-3000:], time.time() - t0
+        return r.returncode, (r.stdout + r.stderr)[-20000:], time.time() - t0
     except subprocess.TimeoutExpired as e:
         return 124, 'TIMEOUT (hang) after %ds' % timeout, time.time() - t0
 
